@@ -1,18 +1,29 @@
-//! C16 — dominators::simple_fast (observed through every accessor of `Dominators`) and
-//! articulation_points, on every storage type satisfying the bounds.
+//! C16 — dominators::simple_fast (observed through every accessor of `Dominators`, through clones of the
+//! result and through its lazy iterators) and articulation_points, on every storage type AND every graph
+//! adaptor satisfying the bounds.
+//!
+//! Protocol (one case):
+//!   case <k> <directed|undirected> <family> n=<n> m=<m> base=<storage> ad=<adaptor> profile=<debug|release>
+//!   graph d=.. nb=.. nodes=.. ix=.. edges=.. out=.. in=- hasin=0 base=.. ad=.. via=neighbors    what `neighbors()` enumerates
+//!   sf <root> [clone|clonefrom]   => root=<r> <rec>;<rec>…      every accessor, for every node
+//!   law iters|absent|debug <root> => ok | VIOLATED <why>        laws checked here against the implementation
+//!   graph … via=edges                                            only if `edges().target()` enumerates something else
+//!   ap => a,b,c
 use crate::common::*;
 use crate::graphs::*;
+use crate::iterlaws::{iter_laws, law_verdict};
 use crate::rng::Rng;
 use petgraph::algo::articulation_points::articulation_points;
-use petgraph::algo::dominators::simple_fast;
+use petgraph::algo::dominators::{simple_fast, Dominators};
+use petgraph::graph::{Frozen, Graph, IndexType, NodeIndex};
 use petgraph::visit::{
-    GraphProp, IntoEdges, IntoNeighbors, IntoNodeIdentifiers, IntoNodeReferences, NodeIndexable, Reversed, Visitable,
+    EdgeFiltered, EdgeRef, GraphProp, IntoEdges, IntoNeighbors, IntoNodeReferences, NodeFiltered, NodeIndexable, NodeRef,
+    Reversed, UndirectedAdaptor, VisitMap, Visitable,
 };
 use petgraph::{Directed, Undirected};
+use std::collections::HashMap;
+use std::fmt::Debug;
 use std::hash::Hash;
-
-/// an iterator of a corrupt `Dominators` could cycle for ever; the judge rejects anything this long
-const ITER_LIMIT: usize = 64;
 
 fn sl(v: &[usize]) -> String {
     if v.is_empty() {
@@ -22,52 +33,545 @@ fn sl(v: &[usize]) -> String {
     }
 }
 
-fn run_sf<G>(ctx: &mut Ctx, g: G, n: usize, roots: &[usize], abs: &dyn Fn(G::NodeId) -> usize, conc: &dyn Fn(usize) -> G::NodeId)
-where
-    G: IntoNeighbors + Visitable + Copy,
-    G::NodeId: Eq + Hash + Copy,
-{
-    for &r in roots {
-        let ans = catch(|| {
-            let d = simple_fast(g, conc(r));
-            let mut recs = Vec::new();
-            for b in 0..n {
-                let c = conc(b);
-                let idom = match d.immediate_dominator(c) {
-                    Some(x) => abs(x).to_string(),
-                    None => "x".into(),
-                };
-                let doms = match d.dominators(c) {
-                    Some(it) => sl(&it.take(ITER_LIMIT).map(|x| abs(x)).collect::<Vec<_>>()),
-                    None => "x".into(),
-                };
-                let strict = match d.strict_dominators(c) {
-                    Some(it) => sl(&it.take(ITER_LIMIT).map(|x| abs(x)).collect::<Vec<_>>()),
-                    None => "x".into(),
-                };
-                let mut idb: Vec<usize> = d.immediately_dominated_by(c).map(|x| abs(x)).collect();
-                idb.sort();
-                recs.push(format!("{}:{}:{}:{}:{}", b, idom, doms, strict, sl(&idb)));
-            }
-            format!("root={} {}", abs(d.root()), if recs.is_empty() { "-".into() } else { recs.join(";") })
-        });
-        ctx.line(&format!("sf {}", r), &ans.unwrap_or("panic".into()));
+// ------------------------------------------------------------------------------------------------
+// the abstract graph an (adapted) encoding presents: node set = any set of abstract ids
+
+#[derive(Clone, Debug)]
+struct AV {
+    directed: bool,
+    nodes: Vec<usize>,
+    edges: Vec<(usize, usize)>,
+}
+
+impl AV {
+    fn of(ag: &AG) -> AV {
+        AV { directed: ag.directed, nodes: (0..ag.n).collect(), edges: ag.edges.iter().map(|e| (e.0, e.1)).collect() }
+    }
+    /// `Reversed`: every edge turned round
+    fn reversed(&self) -> AV {
+        AV { directed: self.directed, nodes: self.nodes.clone(), edges: self.edges.iter().map(|&(a, b)| (b, a)).collect() }
+    }
+    /// `EdgeFiltered`: the edges with `keep[k]`
+    fn edge_filtered(&self, keep: &[bool]) -> AV {
+        AV { directed: self.directed, nodes: self.nodes.clone(), edges: self.edges.iter().enumerate().filter(|(k, _)| keep[*k]).map(|(_, &e)| e).collect() }
+    }
+    /// `NodeFiltered`: the subgraph induced by the nodes with `keep[a]`
+    fn node_filtered(&self, keep: &[bool]) -> AV {
+        AV {
+            directed: self.directed,
+            nodes: self.nodes.iter().cloned().filter(|&a| keep[a]).collect(),
+            edges: self.edges.iter().cloned().filter(|&(a, b)| keep[a] && keep[b]).collect(),
+        }
+    }
+    /// `UndirectedAdaptor`: `neighbors(a)` = incoming ++ outgoing neighbours of the base graph. Over a directed base
+    /// that is the underlying undirected multigraph in which a self-loop is met from both of its ends (listed twice);
+    /// over an undirected base every edge is met twice.  Neither changes reachability, dominance or cut vertices.
+    fn undirected_adaptor(&self) -> AV {
+        let mut edges = self.edges.clone();
+        if self.directed {
+            edges.extend(self.edges.iter().cloned().filter(|&(a, b)| a == b));
+        } else {
+            edges.extend(self.edges.iter().cloned());
+        }
+        AV { directed: false, nodes: self.nodes.clone(), edges }
     }
 }
 
-fn run_ap<G>(ctx: &mut Ctx, g: G, abs: &dyn Fn(G::NodeId) -> usize)
+/// `out=` rows with edge ids assigned by lookup (an id is used once per row; 999999 = no such edge)
+fn fmt_rows(av: &AV, order: &[usize], rows: &[Vec<usize>]) -> String {
+    if order.is_empty() {
+        return "-".into();
+    }
+    // edge ids by (unordered) endpoint pair, to keep the lookup cheap on the larger corner cases
+    let mut by_pair: HashMap<(usize, usize), Vec<usize>> = HashMap::new();
+    for (k, &(a, b)) in av.edges.iter().enumerate() {
+        by_pair.entry((a, b)).or_default().push(k);
+        if !av.directed && a != b {
+            by_pair.entry((b, a)).or_default().push(k);
+        }
+    }
+    let mut out = Vec::new();
+    for (i, &a) in order.iter().enumerate() {
+        let mut used: HashMap<(usize, usize), usize> = HashMap::new();
+        let r: Vec<String> = rows[i]
+            .iter()
+            .map(|&t| {
+                let c = used.entry((a, t)).or_insert(0);
+                let k = by_pair.get(&(a, t)).and_then(|v| v.get(*c)).cloned().unwrap_or(999999);
+                *c += 1;
+                format!("{}/{}", t, k)
+            })
+            .collect();
+        out.push(format!("{}:{}", a, if r.is_empty() { "-".into() } else { r.join(",") }));
+    }
+    out.join(";")
+}
+
+fn graph_line(av: &AV, nb: usize, order: &[usize], ix: &[usize], rows: &[Vec<usize>], tag: &str, via: &str) -> String {
+    let edges = if av.edges.is_empty() { "-".to_string() } else { av.edges.iter().enumerate().map(|(k, &(a, b))| format!("{}:{}:{}:1", k, a, b)).collect::<Vec<_>>().join(";") };
+    format!(
+        "graph d={} nb={} nodes={} ix={} edges={} out={} in=- hasin=0 {} via={}",
+        if av.directed { 1 } else { 0 },
+        nb,
+        list(order.iter()),
+        list(order.iter().zip(ix.iter()).map(|(a, i)| format!("{}:{}", a, i))),
+        edges,
+        fmt_rows(av, order, rows),
+        tag,
+        via
+    )
+}
+
+// ------------------------------------------------------------------------------------------------
+// observation of a `Dominators` value (generic in the node id only: six instantiations)
+
+/// every accessor for every node of `nodes` (ascending abstract ids).  An iterator of a corrupt `Dominators` could
+/// cycle for ever: it is cut at `limit` = |nodes| + 2 items (a longer answer repeats a node and the judge rejects it).
+fn observe<N>(d: &Dominators<N>, nodes: &[usize], abs: &dyn Fn(N) -> usize, conc: &dyn Fn(usize) -> N) -> String
 where
-    G: IntoNodeReferences + IntoEdges + NodeIndexable + GraphProp + Copy,
+    N: Copy + Eq + Hash,
+{
+    let limit = nodes.len() + 2;
+    let mut recs = Vec::new();
+    for &b in nodes {
+        let c = conc(b);
+        let idom = match d.immediate_dominator(c) {
+            Some(x) => abs(x).to_string(),
+            None => "x".into(),
+        };
+        let doms = match d.dominators(c) {
+            Some(it) => sl(&it.take(limit).map(|x| abs(x)).collect::<Vec<_>>()),
+            None => "x".into(),
+        };
+        let strict = match d.strict_dominators(c) {
+            Some(it) => sl(&it.take(limit).map(|x| abs(x)).collect::<Vec<_>>()),
+            None => "x".into(),
+        };
+        let mut idb: Vec<usize> = d.immediately_dominated_by(c).take(limit).map(|x| abs(x)).collect();
+        idb.sort();
+        recs.push(format!("{}:{}:{}:{}:{}", b, idom, doms, strict, sl(&idb)));
+    }
+    format!("root={} {}", abs(d.root()), if recs.is_empty() { "-".into() } else { recs.join(";") })
+}
+
+/// one lazy iterator: it ends, obeys the `Iterator` laws (`size_hint` — `DominatedByIter` overrides it —, `count`,
+/// `last`, `nth`, `skip`, `step_by`, `fold`, fused end), a clone taken in the middle of the iteration continues with
+/// the same items, `Debug` does not panic in any state
+fn one_iter<I>(what: &str, it: I, limit: usize) -> Option<String>
+where
+    I: Iterator + Clone + Debug,
+    I::Item: PartialEq + Debug,
+{
+    if it.clone().take(limit + 1).count() > limit {
+        return Some(format!("{}: the iterator yields more than {} items (it cannot be duplicate-free)", what, limit));
+    }
+    if let Some(e) = iter_laws(it.clone()) {
+        return Some(format!("{}: {}", what, e));
+    }
+    let v: Vec<I::Item> = it.clone().collect();
+    let mut a = it.clone();
+    for k in 0..=v.len() {
+        if format!("{:?}", a).is_empty() || format!("{:#?}", a).is_empty() {
+            return Some(format!("{}: empty Debug output", what));
+        }
+        let rest: Vec<I::Item> = a.clone().collect();
+        if rest[..] != v[k..] {
+            return Some(format!("{}: a clone taken after {} items continues with {:?}, the iterator itself with {:?}", what, k, rest, &v[k..]));
+        }
+        // the laws again on the partly consumed iterator
+        if k > 0 && k < v.len() {
+            if let Some(e) = iter_laws(a.clone()) {
+                return Some(format!("{} after {} items: {}", what, k, e));
+            }
+        }
+        a.next();
+    }
+    None
+}
+
+fn law_iters<N>(d: &Dominators<N>, ids: &[N], nnodes: usize) -> Option<String>
+where
+    N: Copy + Eq + Hash + Debug,
+{
+    let limit = nnodes + 2;
+    for &c in ids {
+        if let Some(it) = d.dominators(c) {
+            if let Some(e) = one_iter(&format!("dominators({:?})", c), it, limit) {
+                return Some(e);
+            }
+        }
+        if let Some(it) = d.strict_dominators(c) {
+            if let Some(e) = one_iter(&format!("strict_dominators({:?})", c), it, limit) {
+                return Some(e);
+            }
+        }
+        if let Some(e) = one_iter(&format!("immediately_dominated_by({:?})", c), d.immediately_dominated_by(c), limit) {
+            return Some(e);
+        }
+        // the two options are `Some` together, and `dominators` = the node itself followed by `strict_dominators`
+        match (d.dominators(c), d.strict_dominators(c)) {
+            (None, None) => {}
+            (Some(a), Some(b)) => {
+                let a: Vec<N> = a.take(limit).collect();
+                let b: Vec<N> = b.take(limit).collect();
+                if a.first() != Some(&c) || a[1..] != b[..] {
+                    return Some(format!("dominators({:?}) = {:?} is not the node followed by strict_dominators = {:?}", c, a, b));
+                }
+            }
+            _ => return Some(format!("dominators({:?}) and strict_dominators({:?}) are not None together", c, c)),
+        }
+    }
+    None
+}
+
+/// ids that are not nodes of the graph (beyond the bound, vacant / removed / filtered-out slots, `end()`): they are
+/// not reachable from the root, so they have no entry and dominate nothing
+fn law_absent<N>(d: &Dominators<N>, absent: &[N]) -> Option<String>
+where
+    N: Copy + Eq + Hash + Debug,
+{
+    for &x in absent {
+        if x == d.root() {
+            continue;
+        }
+        if let Some(y) = d.immediate_dominator(x) {
+            return Some(format!("immediate_dominator({:?}) = Some({:?}) for an id that is not a node", x, y));
+        }
+        if d.dominators(x).is_some() {
+            return Some(format!("dominators({:?}) is Some for an id that is not a node", x));
+        }
+        if d.strict_dominators(x).is_some() {
+            return Some(format!("strict_dominators({:?}) is Some for an id that is not a node", x));
+        }
+        if let Some(y) = d.immediately_dominated_by(x).next() {
+            return Some(format!("immediately_dominated_by({:?}) yields {:?} for an id that is not a node", x, y));
+        }
+    }
+    None
+}
+
+fn law_debug<N>(d: &Dominators<N>) -> Option<String>
+where
+    N: Copy + Eq + Hash + Debug,
+{
+    let a = format!("{:?}", d);
+    let b = format!("{:#?}", d);
+    let c = format!("{:10?}", d.root());
+    if a.is_empty() || b.is_empty() || c.is_empty() {
+        return Some("empty Debug output".into());
+    }
+    None
+}
+
+fn lawline(ctx: &mut Ctx, name: &str, r: Option<Option<String>>) {
+    let v = match r {
+        Some(x) => law_verdict(x),
+        None => "VIOLATED panic".to_string(),
+    };
+    ctx.line(&format!("law {}", name), &v);
+}
+
+// ------------------------------------------------------------------------------------------------
+// one (adapted) graph: graph line(s), simple_fast through every observation path, articulation_points
+
+struct Job<'a> {
+    /// `base=… ad=…`
+    tag: &'a str,
+    /// the family's entry node (abstract id); kept by every node filter
+    entry: usize,
+}
+
+/// what one encoding enumerates: `node_references()` (abstract ids), `to_index`, `node_bound()`, `neighbors(a)`,
+/// `edges(a).target()`
+struct Seen {
+    order: Vec<usize>,
+    ix: Vec<usize>,
+    nb: usize,
+    rows_nb: Vec<Vec<usize>>,
+    rows_ed: Vec<Vec<usize>>,
+}
+
+/// the part that is generic in the graph type: kept as small as possible (it is instantiated for every base x adaptor):
+/// the enumeration of the view, ONE call site of `simple_fast` and ONE of `articulation_points`
+fn run_on<G>(ctx: &mut Ctx, rng: &mut Rng, av: &AV, g: G, abs: &dyn Fn(G::NodeId) -> usize, conc: &dyn Fn(usize) -> G::NodeId, absent: &[G::NodeId], job: &Job)
+where
+    G: IntoNeighbors + Visitable + IntoNodeReferences + IntoEdges + NodeIndexable + GraphProp + Copy,
     G::NodeWeight: Clone,
     G::EdgeWeight: Clone + PartialOrd,
-    G::NodeId: Eq + Hash,
+    G::NodeId: Eq + Hash + Copy + Debug,
 {
-    let ans = catch(|| {
-        let mut v: Vec<usize> = articulation_points(g).into_iter().map(|x| abs(x)).collect();
-        v.sort();
-        list(v)
+    let seen = catch(|| {
+        let ids: Vec<G::NodeId> = g.node_references().map(|r| r.id()).collect();
+        Seen {
+            order: ids.iter().map(|&x| abs(x)).collect(),
+            ix: ids.iter().map(|&x| g.to_index(x)).collect(),
+            nb: g.node_bound(),
+            rows_nb: ids.iter().map(|&x| g.neighbors(x).map(|t| abs(t)).collect()).collect(),
+            rows_ed: ids.iter().map(|&x| g.edges(x).map(|e| abs(e.target())).collect()).collect(),
+        }
     });
-    ctx.line("ap", &ans.unwrap_or("panic".into()));
+    let sf = |r: usize| catch(|| simple_fast(g, conc(r)));
+    let ap = || catch(|| articulation_points(g).into_iter().map(|x| abs(x)).collect::<Vec<usize>>());
+    let to_index = |a: usize| catch(|| g.to_index(conc(a)));
+    run_core::<G::NodeId>(ctx, rng, av, seen, &sf, &ap, &to_index, abs, conc, absent, job);
+}
+
+/// everything else, generic in the node id type only (six instantiations)
+fn run_core<N>(
+    ctx: &mut Ctx,
+    rng: &mut Rng,
+    av: &AV,
+    seen: Option<Seen>,
+    sf: &dyn Fn(usize) -> Option<Dominators<N>>,
+    ap: &dyn Fn() -> Option<Vec<usize>>,
+    to_index: &dyn Fn(usize) -> Option<usize>,
+    abs: &dyn Fn(N) -> usize,
+    conc: &dyn Fn(usize) -> N,
+    absent: &[N],
+    job: &Job,
+) where
+    N: Eq + Hash + Copy + Debug,
+{
+    let Seen { order, ix, nb, rows_nb, rows_ed } = match seen {
+        Some(v) => v,
+        None => {
+            ctx.line(&format!("graph-unobservable {}", job.tag), "panic");
+            return;
+        }
+    };
+    ctx.line(&graph_line(av, nb, &order, &ix, &rows_nb, job.tag, "neighbors"), "ok");
+    let mut nodes = av.nodes.clone();
+    nodes.sort();
+    if !nodes.is_empty() {
+        let mut roots: Vec<usize> = Vec::new();
+        if nodes.contains(&job.entry) {
+            roots.push(job.entry);
+        }
+        let extra = if av.directed { 1 + rng.below(2) } else { rng.below(2) };
+        for _ in 0..extra + if roots.is_empty() { 1 } else { 0 } {
+            roots.push(*rng.pick(&nodes));
+        }
+        roots.sort();
+        roots.dedup();
+        let mut all_ids: Vec<N> = nodes.iter().map(|&a| conc(a)).collect();
+        all_ids.extend(absent.iter().cloned());
+        let show = |d: Option<Option<String>>| d.flatten().unwrap_or("panic".into());
+        for (i, &r) in roots.iter().enumerate() {
+            let ans = catch(|| sf(r).map(|d| observe(&d, &nodes, abs, conc)));
+            ctx.line(&format!("sf {}", r), &show(ans));
+            if i == 0 || rng.chance(30) {
+                // the same through a clone whose original is gone, and through clone_from onto an arbitrary prior value
+                let ans = catch(|| {
+                    sf(r).map(|d0| {
+                        let d = d0.clone();
+                        drop(d0);
+                        observe(&d, &nodes, abs, conc)
+                    })
+                });
+                ctx.line(&format!("sf {} clone", r), &show(ans));
+                let prior = *rng.pick(&nodes);
+                let ans = catch(|| match (sf(prior), sf(r)) {
+                    (Some(mut d), Some(s)) => {
+                        d.clone_from(&s);
+                        drop(s);
+                        Some(observe(&d, &nodes, abs, conc))
+                    }
+                    _ => None,
+                });
+                ctx.line(&format!("sf {} clonefrom", r), &show(ans));
+            }
+            match sf(r) {
+                None => ctx.line(&format!("law iters {}", r), "VIOLATED simple_fast panicked"),
+                Some(d) => {
+                    lawline(ctx, &format!("iters {}", r), catch(|| law_iters(&d, &all_ids, nodes.len())));
+                    lawline(ctx, &format!("absent {}", r), catch(|| law_absent(&d, absent)));
+                    lawline(ctx, &format!("debug {}", r), catch(|| law_debug(&d)));
+                }
+            }
+        }
+    }
+    if !av.directed {
+        if rows_ed != rows_nb {
+            // targets that are not nodes of the (filtered) graph at all: their `to_index`, for the mirror model
+            let mut extra: Vec<usize> = rows_ed.iter().flatten().cloned().filter(|t| !order.contains(t)).collect();
+            extra.sort();
+            extra.dedup();
+            let via = if extra.is_empty() {
+                "edges".to_string()
+            } else {
+                format!("edges xix={}", list(extra.iter().map(|&t| format!("{}:{}", t, to_index(t).map_or("?".to_string(), |i| i.to_string())))))
+            };
+            ctx.line(&graph_line(av, nb, &order, &ix, &rows_ed, job.tag, &via), "ok");
+        }
+        let ans = ap().map(|mut v| {
+            v.sort();
+            list(v)
+        });
+        ctx.line("ap", &ans.unwrap_or("panic".into()));
+    }
+}
+
+// ------------------------------------------------------------------------------------------------
+// adaptors over one base graph
+
+const ADAPTORS_DIR: [&str; 12] = [
+    "none", "Reversed", "EdgeFiltered", "NodeFiltered-fn", "NodeFiltered-map", "NodeFiltered-mapref", "UndirectedAdaptor", "Frozen",
+    "Reversed(EdgeFiltered)", "UndirectedAdaptor(NodeFiltered)", "NodeFiltered(Reversed)", "Reversed(Reversed)",
+];
+/// bases without `IntoNeighborsDirected` (Csr, adj::List)
+const ADAPTORS_OUT: [&str; 6] = ["none", "EdgeFiltered", "NodeFiltered-fn", "NodeFiltered-map", "NodeFiltered-mapref", "Frozen"];
+
+fn pick_adaptor(rng: &mut Rng, names: &'static [&'static str]) -> &'static str {
+    if rng.chance(45) {
+        names[0]
+    } else {
+        names[1 + rng.below(names.len() - 1)]
+    }
+}
+
+struct Filters {
+    ekeep: Vec<bool>,
+    nkeep: Vec<bool>,
+}
+
+fn gen_filters(rng: &mut Rng, ag: &AG, entry: usize) -> Filters {
+    // corner filters are frequent: everything, nothing, exactly one, all but one
+    let m = ag.edges.len();
+    let mut ekeep: Vec<bool> = match rng.below(10) {
+        0 => vec![true; m],
+        1 => vec![false; m],
+        2 if m > 0 => {
+            let mut v = vec![false; m];
+            v[rng.below(m)] = true;
+            v
+        }
+        3 if m > 0 => {
+            let mut v = vec![true; m];
+            v[rng.below(m)] = false;
+            v
+        }
+        _ => {
+            let pe = [50, 80, 95][rng.below(3)];
+            (0..m).map(|_| rng.chance(pe)).collect()
+        }
+    };
+    if ekeep.len() != m {
+        ekeep = vec![true; m];
+    }
+    let n = ag.n;
+    let mut nkeep: Vec<bool> = match rng.below(10) {
+        0 => vec![true; n],
+        1 | 2 => vec![false; n], // only the entry node (set below)
+        3 if n > 0 => {
+            let mut v = vec![true; n];
+            v[rng.below(n)] = false;
+            v
+        }
+        4 if n > 0 => {
+            // exactly two nodes
+            let mut v = vec![false; n];
+            v[rng.below(n)] = true;
+            v
+        }
+        _ => {
+            let pn = [50, 80, 95][rng.below(3)];
+            (0..n).map(|_| rng.chance(pn)).collect()
+        }
+    };
+    if entry < n {
+        nkeep[entry] = true;
+    }
+    Filters { ekeep, nkeep }
+}
+
+/// run one adaptor (chosen by name) over the owned base graph `$g0`.
+/// `$cidx[a]` = concrete id of abstract node `a`; `$absent` = ids that are no nodes; `$pred` = edge filter closure
+/// (keeps edge `k` iff `flt.ekeep[k]`); `dir` / `out` = whether the base has the `…Directed` traits.
+macro_rules! adapt {
+    ($kind:ident; $ctx:expr, $rng:expr, $ag:expr, $g0:ident, $cidx:expr, $absent:expr, $base:expr, $ad:expr, $fam:expr, $case:expr, $entry:expr, $flt:expr, $pred:expr) => {{
+        let av0 = AV::of($ag);
+        let cidx = $cidx;
+        let mut tab = HashMap::new();
+        for (a, &c) in cidx.iter().enumerate() {
+            tab.insert(c, a);
+        }
+        let abs = |x| *tab.get(&x).expect("an id that is not a node of the graph was returned");
+        let conc = |a: usize| cidx[a];
+        let absent0: Vec<_> = $absent;
+        let mut absent_nf = absent0.clone();
+        absent_nf.extend((0..$ag.n).filter(|&a| !$flt.nkeep[a]).map(|a| cidx[a]));
+        let tag = format!("base={} ad={}", $base, $ad);
+        $ctx.raw(&format!(
+            "case {} {} {} n={} m={} {} profile={}",
+            $case,
+            if $ag.directed { "directed" } else { "undirected" },
+            $fam,
+            $ag.n,
+            $ag.edges.len(),
+            tag,
+            if cfg!(debug_assertions) { "debug" } else { "release" }
+        ));
+        let job = Job { tag: &tag, entry: $entry };
+        // the graph's own visit map type as node filter (FixedBitSet, or a HashSet for GraphMap), owned and by reference
+        let mut vmap = Visitable::visit_map(&&$g0);
+        for a in 0..$ag.n {
+            if $flt.nkeep[a] {
+                VisitMap::visit(&mut vmap, cidx[a]);
+            }
+        }
+        let nkeep = &$flt.nkeep;
+        let tabr = &tab;
+        let nf_fn = move |x| tabr.get(&x).map_or(false, |&a| nkeep[a]);
+        match $ad {
+            "none" => run_on($ctx, $rng, &av0, &$g0, &abs, &conc, &absent0, &job),
+            "EdgeFiltered" => {
+                let f = EdgeFiltered::from_fn(&$g0, $pred);
+                run_on($ctx, $rng, &av0.edge_filtered(&$flt.ekeep), &f, &abs, &conc, &absent0, &job)
+            }
+            "NodeFiltered-fn" => {
+                let f = NodeFiltered::from_fn(&$g0, nf_fn);
+                run_on($ctx, $rng, &av0.node_filtered(&$flt.nkeep), &f, &abs, &conc, &absent_nf, &job)
+            }
+            "NodeFiltered-map" => {
+                let f = NodeFiltered(&$g0, vmap.clone());
+                run_on($ctx, $rng, &av0.node_filtered(&$flt.nkeep), &f, &abs, &conc, &absent_nf, &job)
+            }
+            "NodeFiltered-mapref" => {
+                let f = NodeFiltered(&$g0, &vmap);
+                run_on($ctx, $rng, &av0.node_filtered(&$flt.nkeep), &f, &abs, &conc, &absent_nf, &job)
+            }
+            "Frozen" => {
+                // `&Frozen<G>` has the visit traits only when `G` itself has them, i.e. for `G = &Graph`
+                let mut r = &$g0;
+                let f = Frozen::new(&mut r);
+                run_on($ctx, $rng, &av0, &f, &abs, &conc, &absent0, &job)
+            }
+            other => adapt!(@$kind other; $ctx, $rng, av0, $g0, abs, conc, absent0, absent_nf, job, $flt, $pred, nf_fn),
+        }
+    }};
+    (@out $other:expr; $ctx:expr, $rng:expr, $av0:ident, $g0:ident, $abs:ident, $conc:ident, $absent0:ident, $absent_nf:ident, $job:ident, $flt:expr, $pred:expr, $nf_fn:ident) => {{
+        unreachable!("adaptor {} on a base without directed neighbour iteration", $other)
+    }};
+    (@dir $other:expr; $ctx:expr, $rng:expr, $av0:ident, $g0:ident, $abs:ident, $conc:ident, $absent0:ident, $absent_nf:ident, $job:ident, $flt:expr, $pred:expr, $nf_fn:ident) => {{
+        match $other {
+            "Reversed" => run_on($ctx, $rng, &$av0.reversed(), Reversed(&$g0), &$abs, &$conc, &$absent0, &$job),
+            "UndirectedAdaptor" => run_on($ctx, $rng, &$av0.undirected_adaptor(), UndirectedAdaptor(&$g0), &$abs, &$conc, &$absent0, &$job),
+            "Reversed(EdgeFiltered)" => {
+                let f = EdgeFiltered::from_fn(&$g0, $pred);
+                run_on($ctx, $rng, &$av0.edge_filtered(&$flt.ekeep).reversed(), Reversed(&f), &$abs, &$conc, &$absent0, &$job)
+            }
+            "UndirectedAdaptor(NodeFiltered)" => {
+                let f = NodeFiltered::from_fn(&$g0, $nf_fn);
+                run_on($ctx, $rng, &$av0.node_filtered(&$flt.nkeep).undirected_adaptor(), UndirectedAdaptor(&f), &$abs, &$conc, &$absent_nf, &$job)
+            }
+            "NodeFiltered(Reversed)" => {
+                let f = NodeFiltered::from_fn(Reversed(&$g0), $nf_fn);
+                run_on($ctx, $rng, &$av0.reversed().node_filtered(&$flt.nkeep), &f, &$abs, &$conc, &$absent_nf, &$job)
+            }
+            "Reversed(Reversed)" => run_on($ctx, $rng, &$av0, Reversed(Reversed(&$g0)), &$abs, &$conc, &$absent0, &$job),
+            x => unreachable!("unknown adaptor {}", x),
+        }
+    }};
 }
 
 // ------------------------------------------------------------------------------------------------
@@ -281,134 +785,325 @@ fn gen_tiny(rng: &mut Rng, directed: bool, multi: bool) -> AG {
     AG { directed, n, edges: e }
 }
 
+// ---- corner families (wave 6)
+
+/// one node: no edge, one self-loop, or (multi) several self-loops
+fn gen_single(rng: &mut Rng, directed: bool, multi: bool) -> AG {
+    let k = if multi { rng.below(4) } else { rng.below(2) };
+    AG { directed, n: 1, edges: (0..k).map(|_| (0, 0, 1)).collect() }
+}
+
+/// a shallow random tree on exactly `n` nodes (parent among the earlier nodes: expected depth ~ ln n) with at most
+/// `extra` additional edges — for the index-capacity cases (u8: 255 nodes / 255 edges is the most the type can hold)
+fn gen_shallow(rng: &mut Rng, directed: bool, n: usize, extra: usize) -> AG {
+    let mut e: Vec<(usize, usize, i64)> = Vec::new();
+    for b in 1..n {
+        let a = if rng.chance(15) { b - 1 } else { rng.below(b) };
+        e.push((a, b, 1));
+    }
+    let mut seen: std::collections::HashSet<(usize, usize)> = e.iter().map(|x| (x.0, x.1)).collect();
+    for _ in 0..extra {
+        let (a, b) = (rng.below(n), rng.below(n));
+        let key = if directed || a <= b { (a, b) } else { (b, a) };
+        if a != b && !seen.contains(&key) && !seen.contains(&(key.1, key.0)) {
+            seen.insert(key);
+            e.push((key.0, key.1, 1));
+        }
+    }
+    rng.shuffle(&mut e);
+    AG { directed, n, edges: e }
+}
+
+/// a hub with 31 / 32 / 33 (… `deg`) neighbours — Csr rows switch from linear to binary search at 32 entries —
+/// plus a few edges among the leaves and back to the hub; simple
+fn gen_wide(rng: &mut Rng, directed: bool, deg: usize) -> AG {
+    let n = deg + 1 + rng.below(3);
+    let mut e: Vec<(usize, usize, i64)> = (1..=deg).map(|b| (0, b, 1)).collect();
+    let mut seen: std::collections::HashSet<(usize, usize)> = e.iter().map(|x| (x.0, x.1)).collect();
+    for b in deg + 1..n {
+        let a = 1 + rng.below(b - 1);
+        seen.insert((a, b));
+        e.push((a, b, 1));
+    }
+    for _ in 0..rng.below(8) {
+        let (a, b) = (rng.below(n), rng.below(n));
+        let key = if directed || a <= b { (a, b) } else { (b, a) };
+        if a != b && !seen.contains(&key) && (directed || !seen.contains(&(key.1, key.0))) {
+            seen.insert(key);
+            e.push((key.0, key.1, 1));
+        }
+    }
+    rng.shuffle(&mut e);
+    AG { directed, n, edges: e }
+}
+
 // ------------------------------------------------------------------------------------------------
+// bases
 
-struct Plan {
-    roots: Vec<usize>,
-    ap: bool,
+const BASES: [&str; 12] = [
+    "Graph-u32", "Graph-u8", "StableGraph-u32", "MatrixGraph", "GraphMap", "Csr", "List", "Graph-u16-unit-f32", "Graph-usize-removals",
+    "StableGraph-u8", "GraphMap-fx", "MatrixGraph-fx-u8",
+];
+
+/// weights outside the ordinary: the algorithms never look at them (`EdgeWeight: Clone + PartialOrd` is all they ask)
+const ODD_F32: [f32; 8] = [f32::NAN, f32::INFINITY, f32::NEG_INFINITY, 0.0, -0.0, -1.5, f32::MIN_POSITIVE, f32::MAX];
+
+fn absent_index<Ix: IndexType>(n: usize) -> Vec<NodeIndex<Ix>> {
+    let mut v = vec![NodeIndex::end()];
+    let max = <Ix as IndexType>::max().index();
+    for x in [n, n + 1, n + 7] {
+        if x < max {
+            v.push(NodeIndex::new(x));
+        }
+    }
+    v
 }
 
-macro_rules! with_ty {
-    ($directed:expr, $f:ident, $($args:expr),*) => {
-        if $directed { $f::<Directed>($($args),*) } else { $f::<Undirected>($($args),*) }
-    };
-}
-
-fn case_ty<Ty: petgraph::EdgeType>(ctx: &mut Ctx, rng: &mut Rng, ag: &AG, plan: &Plan) {
+/// `MatrixGraph` has `IntoNeighborsDirected` / `IntoEdgesDirected` only when it is `Directed`: the undirected one takes the
+/// adaptors of the bases without directed iteration
+macro_rules! def_case_ty {
+    ($name:ident, $Ty:ty, $mkind:ident, $MADS:ident) => {
+fn $name(ctx: &mut Ctx, rng: &mut Rng, case: u64, ag: &AG, fam: &str, entry: usize, force: Option<&'static str>) {
     let n = ag.n;
+    let m = ag.edges.len();
     let node_order = random_perm(rng, n);
-    let edge_order = random_perm(rng, ag.edges.len());
+    let edge_order = random_perm(rng, m);
     let mut inv = vec![0usize; n];
     for (i, &a) in node_order.iter().enumerate() {
         inv[a] = i;
     }
     let simple = ag.is_simple();
-    let mut choices = vec![0, 1, 2, 2];
-    if ag.directed {
-        choices.push(7);
-    }
-    if simple {
-        choices.extend([3, 4, 5]);
-        if ag.directed {
-            choices.push(6);
-        }
-    }
-    match *rng.pick(&choices) {
-        0 => {
-            let e = enc_graph::<Ty, u32>(ag, &node_order, &edge_order);
-            let g = &e.g;
-            let abs = |x: petgraph::graph::NodeIndex<u32>| g[x];
-            let conc = |a: usize| petgraph::graph::NodeIndex::<u32>::new(inv[a]);
-            ctx.line(&view_line(ag, g, &abs, &|er, _| e.eid[petgraph::visit::EdgeRef::id(&er).index()]), "ok");
-            run_sf(ctx, g, n, &plan.roots, &abs, &conc);
-            if plan.ap {
-                run_ap(ctx, g, &abs);
+    let base: &'static str = match force {
+        Some(b) => b,
+        None => {
+            // multigraph-capable storage always; the simple-only ones when the graph is simple; List when directed
+            let mut choices = vec!["Graph-u32", "Graph-u32", "Graph-u8", "StableGraph-u32", "StableGraph-u32", "Graph-u16-unit-f32", "Graph-usize-removals", "StableGraph-u8"];
+            if ag.directed {
+                choices.push("List");
             }
-        }
-        1 => {
-            let e = enc_graph::<Ty, u8>(ag, &node_order, &edge_order);
-            let g = &e.g;
-            let abs = |x: petgraph::graph::NodeIndex<u8>| g[x];
-            let conc = |a: usize| petgraph::graph::NodeIndex::<u8>::new(inv[a]);
-            ctx.line(&view_line(ag, g, &abs, &|er, _| e.eid[petgraph::visit::EdgeRef::id(&er).index()]), "ok");
-            run_sf(ctx, g, n, &plan.roots, &abs, &conc);
-            if plan.ap {
-                run_ap(ctx, g, &abs);
+            if simple {
+                choices.extend(["MatrixGraph", "GraphMap", "Csr", "GraphMap-fx", "MatrixGraph-fx-u8", "MatrixGraph", "GraphMap", "Csr"]);
             }
+            *rng.pick(&choices)
         }
-        2 => {
-            let e = enc_stable::<Ty, u32>(rng, ag, &node_order, &edge_order, true);
-            let g = &e.g;
-            let cidx: Vec<_> = { let mut v = vec![petgraph::graph::NodeIndex::<u32>::new(0); n]; for x in g.node_indices() { v[g[x]] = x; } v };
-            let abs = |x: petgraph::graph::NodeIndex<u32>| g[x];
-            let conc = |a: usize| cidx[a];
-            ctx.line(&view_line(ag, g, &abs, &|er, _| e.eid[petgraph::visit::EdgeRef::id(&er).index()]), "ok");
-            run_sf(ctx, g, n, &plan.roots, &abs, &conc);
-            if plan.ap {
-                run_ap(ctx, g, &abs);
+    };
+    let flt = gen_filters(rng, ag, entry);
+    let ekeep = &flt.ekeep;
+    match base {
+        "Graph-u32" => {
+            let e = enc_graph::<$Ty, u32>(ag, &node_order, &edge_order);
+            let g0 = e.g;
+            let cidx: Vec<NodeIndex<u32>> = (0..n).map(|a| NodeIndex::new(inv[a])).collect();
+            let ad = pick_adaptor(rng, &ADAPTORS_DIR);
+            adapt!(dir; ctx, rng, ag, g0, cidx, absent_index::<u32>(n), base, ad, fam, case, entry, flt, |er| ekeep[*EdgeRef::weight(&er) as usize]);
+        }
+        "Graph-u8" => {
+            let e = enc_graph::<$Ty, u8>(ag, &node_order, &edge_order);
+            let g0 = e.g;
+            let cidx: Vec<NodeIndex<u8>> = (0..n).map(|a| NodeIndex::new(inv[a])).collect();
+            let ad = pick_adaptor(rng, &ADAPTORS_DIR);
+            adapt!(dir; ctx, rng, ag, g0, cidx, absent_index::<u8>(n), base, ad, fam, case, entry, flt, |er| ekeep[*EdgeRef::weight(&er) as usize]);
+        }
+        "StableGraph-u32" => {
+            let e = enc_stable::<$Ty, u32>(rng, ag, &node_order, &edge_order, true);
+            let g0 = e.g;
+            let mut cidx = vec![NodeIndex::<u32>::new(0); n];
+            for x in g0.node_indices() {
+                cidx[g0[x]] = x;
             }
+            // the vacant slots below the bound are stale ids
+            let bound = NodeIndexable::node_bound(&&g0);
+            let mut absent = absent_index::<u32>(bound);
+            absent.extend((0..bound).map(NodeIndex::new).filter(|x| !g0.contains_node(*x)));
+            let ad = pick_adaptor(rng, &ADAPTORS_DIR);
+            adapt!(dir; ctx, rng, ag, g0, cidx, absent, base, ad, fam, case, entry, flt, |er| ekeep[*EdgeRef::weight(&er) as usize]);
         }
-        3 => {
-            let g0 = enc_matrix::<Ty>(rng, ag, &node_order, &edge_order, true);
-            let g = &g0;
-            let cidx: Vec<_> = { let mut v = vec![petgraph::matrix_graph::NodeIndex::new(0); n]; for x in g.node_identifiers() { v[*g.node_weight(x)] = x; } v };
-            let abs = |x: petgraph::matrix_graph::NodeIndex| *g.node_weight(x);
-            let conc = |a: usize| cidx[a];
-            ctx.line(&view_line_out_only(ag, g, &abs, &|er, used| { let (s, t) = (abs(petgraph::visit::EdgeRef::source(&er)), abs(petgraph::visit::EdgeRef::target(&er))); eid_by_lookup(ag, s, t, *petgraph::visit::EdgeRef::weight(&er), used) }), "ok");
-            run_sf(ctx, g, n, &plan.roots, &abs, &conc);
-            if plan.ap {
-                run_ap(ctx, g, &abs);
+        "StableGraph-u8" => {
+            // holes only while the dummies fit below the u8 bound
+            let e = enc_stable::<$Ty, u8>(rng, ag, &node_order, &edge_order, n < 60 && m < 100);
+            let g0 = e.g;
+            let mut cidx = vec![NodeIndex::<u8>::new(0); n];
+            for x in g0.node_indices() {
+                cidx[g0[x]] = x;
             }
+            let bound = NodeIndexable::node_bound(&&g0);
+            let mut absent = absent_index::<u8>(bound);
+            absent.extend((0..bound).map(NodeIndex::new).filter(|x| !g0.contains_node(*x)));
+            let ad = pick_adaptor(rng, &ADAPTORS_DIR);
+            adapt!(dir; ctx, rng, ag, g0, cidx, absent, base, ad, fam, case, entry, flt, |er| ekeep[*EdgeRef::weight(&er) as usize]);
         }
-        4 => {
-            let g0 = enc_map::<Ty>(ag, &node_order, &edge_order);
-            let g = &g0;
-            let abs = |x: usize| x;
-            let conc = |a: usize| a;
-            ctx.line(&view_line(ag, g, &abs, &|er, used| eid_by_lookup(ag, petgraph::visit::EdgeRef::source(&er), petgraph::visit::EdgeRef::target(&er), *petgraph::visit::EdgeRef::weight(&er), used)), "ok");
-            run_sf(ctx, g, n, &plan.roots, &abs, &conc);
-            if plan.ap {
-                run_ap(ctx, g, &abs);
+        "Graph-u16-unit-f32" => {
+            // unit node weights, f32 edge weights incl. NaN / infinities / negative zero
+            let mut g0 = Graph::<(), f32, $Ty, u16>::with_capacity(0, 0);
+            let mut cidx = vec![NodeIndex::<u16>::new(0); n];
+            for &a in &node_order {
+                cidx[a] = g0.add_node(());
             }
-        }
-        5 => {
-            let g0 = enc_csr::<Ty>(ag, &node_order, &edge_order);
-            let g = &g0;
-            let abs = |x: u32| g[x];
-            let conc = |a: usize| inv[a] as u32;
-            ctx.line(&view_line_out_only(ag, g, &abs, &|er, used| eid_by_lookup(ag, abs(petgraph::visit::EdgeRef::source(&er)), abs(petgraph::visit::EdgeRef::target(&er)), *petgraph::visit::EdgeRef::weight(&er), used)), "ok");
-            run_sf(ctx, g, n, &plan.roots, &abs, &conc);
-            if plan.ap {
-                run_ap(ctx, g, &abs);
+            for &k in &edge_order {
+                let (a, b, _) = ag.edges[k];
+                g0.add_edge(cidx[a], cidx[b], *rng.pick(&ODD_F32));
             }
+            let eo = &edge_order;
+            let ad = pick_adaptor(rng, &ADAPTORS_DIR);
+            adapt!(dir; ctx, rng, ag, g0, cidx, absent_index::<u16>(n), base, ad, fam, case, entry, flt, |er| ekeep[eo[EdgeRef::id(&er).index()]]);
         }
-        6 => {
+        "Graph-usize-removals" => {
+            // a history with removals: dummy nodes and edges are added in between and removed again (swap-remove
+            // renumbers the last node / edge each time)
+            let mut g0 = Graph::<usize, i64, $Ty, usize>::with_capacity(0, 0);
+            let mut dummies = 0usize;
+            for &a in &node_order {
+                if rng.chance(30) {
+                    g0.add_node(usize::MAX);
+                    dummies += 1;
+                }
+                g0.add_node(a);
+            }
+            let find = |g: &Graph<usize, i64, $Ty, usize>, w: usize| g.node_indices().find(|&x| g[x] == w).unwrap();
+            for &k in &edge_order {
+                let (a, b, w) = ag.edges[k];
+                if rng.chance(25) {
+                    let all: Vec<_> = g0.node_indices().collect();
+                    let (x, y) = (*rng.pick(&all), *rng.pick(&all));
+                    g0.add_edge(x, y, -777);
+                }
+                let (ca, cb) = (find(&g0, a), find(&g0, b));
+                g0.add_edge(ca, cb, w);
+            }
+            while let Some(e) = g0.edge_indices().find(|&e| g0[e] == -777) {
+                g0.remove_edge(e);
+            }
+            for _ in 0..dummies {
+                let d = find(&g0, usize::MAX);
+                g0.remove_node(d);
+            }
+            let mut cidx = vec![NodeIndex::<usize>::new(0); n];
+            for x in g0.node_indices() {
+                cidx[g0[x]] = x;
+            }
+            let ad = pick_adaptor(rng, &ADAPTORS_DIR);
+            adapt!(dir; ctx, rng, ag, g0, cidx, absent_index::<usize>(n), base, ad, fam, case, entry, flt, |er| ekeep[*EdgeRef::weight(&er) as usize]);
+        }
+        "MatrixGraph" => {
+            let g0 = enc_matrix::<$Ty>(rng, ag, &node_order, &edge_order, true);
+            let mut cidx = vec![petgraph::matrix_graph::NodeIndex::new(0); n];
+            let ids: Vec<_> = petgraph::visit::IntoNodeIdentifiers::node_identifiers(&g0).collect();
+            for &x in &ids {
+                cidx[*g0.node_weight(x)] = x;
+            }
+            let bound = NodeIndexable::node_bound(&&g0);
+            let absent: Vec<petgraph::matrix_graph::NodeIndex> = (0..bound + 3).map(petgraph::matrix_graph::NodeIndex::new).filter(|x| !ids.contains(x)).collect();
+            let ad = pick_adaptor(rng, &$MADS);
+            adapt!($mkind; ctx, rng, ag, g0, cidx, absent, base, ad, fam, case, entry, flt, |er| ekeep[*EdgeRef::weight(&er) as usize]);
+        }
+        "MatrixGraph-fx-u8" => {
+            // non-default hasher and index type; capacity exactly n, n - 1 or a power of two
+            let cap = match rng.below(4) {
+                0 => n,
+                1 => n.saturating_sub(1),
+                2 => n.next_power_of_two(),
+                _ => 0,
+            };
+            let mut g0 = petgraph::matrix_graph::MatrixGraph::<usize, i64, fxhash::FxBuildHasher, $Ty, Option<i64>, u8>::with_capacity(cap.min(255));
+            let mut cidx = vec![petgraph::matrix_graph::NodeIndex::<u8>::new(0); n];
+            let mut dummies = Vec::new();
+            for &a in &node_order {
+                if n < 200 && rng.chance(25) {
+                    dummies.push(g0.add_node(usize::MAX));
+                }
+                cidx[a] = g0.add_node(a);
+            }
+            for d in dummies {
+                g0.remove_node(d);
+            }
+            for &k in &edge_order {
+                let (a, b, w) = ag.edges[k];
+                g0.add_edge(cidx[a], cidx[b], w);
+            }
+            let ids: Vec<_> = petgraph::visit::IntoNodeIdentifiers::node_identifiers(&g0).collect();
+            let bound = NodeIndexable::node_bound(&&g0);
+            let absent: Vec<petgraph::matrix_graph::NodeIndex<u8>> = (0..(bound + 3).min(255)).map(petgraph::matrix_graph::NodeIndex::new).filter(|x| !ids.contains(x)).collect();
+            let ad = pick_adaptor(rng, &$MADS);
+            adapt!($mkind; ctx, rng, ag, g0, cidx, absent, base, ad, fam, case, entry, flt, |er| ekeep[*EdgeRef::weight(&er) as usize]);
+        }
+        "GraphMap" => {
+            let g0 = enc_map::<$Ty>(ag, &node_order, &edge_order);
+            let cidx: Vec<usize> = (0..n).collect();
+            let ad = pick_adaptor(rng, &ADAPTORS_DIR);
+            adapt!(dir; ctx, rng, ag, g0, cidx, vec![n, n + 5, usize::MAX], base, ad, fam, case, entry, flt, |er| ekeep[*EdgeRef::weight(&er) as usize]);
+        }
+        "GraphMap-fx" => {
+            let mut g0 = petgraph::graphmap::GraphMap::<usize, i64, $Ty, fxhash::FxBuildHasher>::default();
+            for &a in &node_order {
+                g0.add_node(a);
+            }
+            for &k in &edge_order {
+                let (a, b, w) = ag.edges[k];
+                g0.add_edge(a, b, w);
+            }
+            let cidx: Vec<usize> = (0..n).collect();
+            let ad = pick_adaptor(rng, &ADAPTORS_DIR);
+            adapt!(dir; ctx, rng, ag, g0, cidx, vec![n, n + 5, usize::MAX], base, ad, fam, case, entry, flt, |er| ekeep[*EdgeRef::weight(&er) as usize]);
+        }
+        "Csr" => {
+            let g0 = enc_csr::<$Ty>(ag, &node_order, &edge_order);
+            let cidx: Vec<u32> = (0..n).map(|a| inv[a] as u32).collect();
+            let ad = pick_adaptor(rng, &ADAPTORS_OUT);
+            adapt!(out; ctx, rng, ag, g0, cidx, vec![n as u32, n as u32 + 9], base, ad, fam, case, entry, flt, |er| ekeep[*EdgeRef::weight(&er) as usize]);
+        }
+        "List" => {
             let g0 = enc_list(ag, &node_order, &edge_order);
-            let g = &g0;
-            let abs = |x: u32| node_order[x as usize];
-            let conc = |a: usize| inv[a] as u32;
-            ctx.line(&view_line_out_only(ag, g, &abs, &|er, used| eid_by_lookup(ag, abs(petgraph::visit::EdgeRef::source(&er)), abs(petgraph::visit::EdgeRef::target(&er)), *petgraph::visit::EdgeRef::weight(&er), used)), "ok");
-            run_sf(ctx, g, n, &plan.roots, &abs, &conc);
+            let cidx: Vec<u32> = (0..n).map(|a| inv[a] as u32).collect();
+            let ad = pick_adaptor(rng, &ADAPTORS_OUT);
+            adapt!(out; ctx, rng, ag, g0, cidx, vec![n as u32, n as u32 + 9], base, ad, fam, case, entry, flt, |er| ekeep[*EdgeRef::weight(&er) as usize]);
         }
-        _ => {
-            // Reversed(&Graph): the abstract graph is the reverse (post-dominators)
-            let e = enc_graph::<Ty, u32>(ag, &node_order, &edge_order);
-            let rag = AG { directed: ag.directed, n: ag.n, edges: ag.edges.iter().map(|&(a, b, w)| (b, a, w)).collect() };
-            let g = Reversed(&e.g);
-            let abs = |x: petgraph::graph::NodeIndex<u32>| e.g[x];
-            let conc = |a: usize| petgraph::graph::NodeIndex::<u32>::new(inv[a]);
-            ctx.line(&view_line(&rag, g, &abs, &|er, _| e.eid[petgraph::visit::EdgeRef::id(&er).index()]), "ok");
-            run_sf(ctx, g, n, &plan.roots, &abs, &conc);
-        }
+        x => unreachable!("unknown base {}", x),
     }
 }
+    };
+}
+def_case_ty!(case_ty_directed, Directed, dir, ADAPTORS_DIR);
+def_case_ty!(case_ty_undirected, Undirected, out, ADAPTORS_OUT);
 
 pub fn run(ctx: &mut Ctx, case: u64) {
     let mut rng = Rng::for_case(ctx.seed, "C16", case);
     let max_n = if ctx.tier_thorough { 13 } else { 10 };
     let directed = rng.chance(55);
     let multi = rng.chance(55);
-    let (ag0, fam): (AG, String) = if directed {
+    let mut force: Option<&'static str> = None;
+    // ---- corners first (about 9 % of the cases)
+    let corner = rng.below(1000);
+    let (ag0, fam): (AG, String) = if corner < 12 {
+        (AG { directed, n: 0, edges: vec![] }, "null".into())
+    } else if corner < 30 {
+        (gen_single(&mut rng, directed, multi), "single".into())
+    } else if corner < 34 {
+        // exactly at the capacity of u8 (255 nodes; 255 edges) and one below
+        let n = if rng.chance(50) { 255 } else { 254 };
+        let extra = if rng.chance(50) { 255 - (n - 1) } else { 254 - (n - 1) };
+        force = Some(*rng.pick(&["Graph-u8", "StableGraph-u8", "MatrixGraph-fx-u8"]));
+        (gen_shallow(&mut rng, directed, n, extra), format!("cap-u8-{}", n))
+    } else if corner < 54 {
+        // a row of 31 / 32 / 33 entries: the Csr cut-off between linear and binary search
+        let deg = 31 + rng.below(3);
+        force = Some(*rng.pick(&["Csr", "Csr", "Csr", "GraphMap", "MatrixGraph", "Graph-u8", "List"]));
+        if force == Some("List") && !directed {
+            force = Some("Csr");
+        }
+        (gen_wide(&mut rng, directed, deg), format!("wide-{}", deg))
+    } else if corner < 74 {
+        // MatrixGraph at a power-of-two number of nodes, one below, one above (its capacity doubles there)
+        let p = [4usize, 8, 16, 32, 64][rng.below(5)];
+        let n = p - 1 + rng.below(3);
+        force = Some(*rng.pick(&["MatrixGraph", "MatrixGraph-fx-u8"]));
+        let extra = 2 + rng.below(n);
+        (gen_shallow(&mut rng, directed, n, extra), format!("pow2-{}", n))
+    } else if corner < 90 {
+        // u16 / usize / unit weights / odd floats on a multigraph with self-loops next to parallel edges
+        force = Some(*rng.pick(&["Graph-u16-unit-f32", "Graph-usize-removals", "StableGraph-u8"]));
+        let (g, _) = (gen_family(&mut rng, directed, 8, GenOpts::multi(max_n, 1, 1)), 8);
+        (g, "multi-loops".into())
+    } else if directed {
         match rng.below(11) {
             0 | 1 | 2 => (gen_flow(&mut rng, max_n, multi), "flow".into()),
             3 => (gen_irreducible(&mut rng, max_n), "irreducible".into()),
@@ -421,8 +1116,6 @@ pub fn run(ctx: &mut Ctx, case: u64) {
                 (g, family_name(f).into())
             }
         }
-    } else if rng.chance(1) {
-        (AG { directed: false, n: 0, edges: vec![] }, "null".into())
     } else {
         match rng.below(11) {
             0 | 1 | 2 | 3 => (gen_blocks(&mut rng, max_n + 2, multi), "blocks".into()),
@@ -434,23 +1127,17 @@ pub fn run(ctx: &mut Ctx, case: u64) {
             }
         }
     };
-    // random relabelling, so that the root / the cut vertices are not special ids
+    // random relabelling, so that the root / the cut vertices are not special ids; edge weight = edge id (the edge
+    // filters select by weight)
     let p = random_perm(&mut rng, ag0.n);
-    let ag = ag0.relabel(&p);
-    ctx.raw(&format!("case {} {} {} n={} m={}", case, if directed { "directed" } else { "undirected" }, fam, ag.n, ag.edges.len()));
-    if ag.n == 0 {
-        // the empty graph: articulation_points only (there is no root to give)
-        let plan = Plan { roots: vec![], ap: !directed };
-        with_ty!(directed, case_ty, ctx, &mut rng, &ag, &plan);
-        return;
+    let mut ag = ag0.relabel(&p);
+    for (k, e) in ag.edges.iter_mut().enumerate() {
+        e.2 = k as i64;
     }
-    let mut roots = vec![p[0]];
-    let extra = if directed { 1 + rng.below(2) } else { rng.below(2) };
-    for _ in 0..extra {
-        roots.push(rng.below(ag.n));
+    let entry = if ag.n == 0 { 0 } else { p[0] };
+    if directed {
+        case_ty_directed(ctx, &mut rng, case, &ag, &fam, entry, force);
+    } else {
+        case_ty_undirected(ctx, &mut rng, case, &ag, &fam, entry, force);
     }
-    roots.sort();
-    roots.dedup();
-    let plan = Plan { roots, ap: !directed };
-    with_ty!(directed, case_ty, ctx, &mut rng, &ag, &plan);
 }
